@@ -37,7 +37,7 @@ noncomputable def lkE (α β D : ℝ) (z w0 : ℂ) (S : ℕ → ℝ) (n : ℕ) :
   -(S n - D - lkOff α β - lkTS α β z w0 n)
 noncomputable def lkU (α β : ℝ) (z w0 : ℂ) (T : ℕ → ℝ) (n : ℕ) : ℝ := T n - lkTT α β z w0 n
 
-theorem abs_le_add_of_sq_le {x p q : ℝ} (hp : 0 ≤ p) (hq : 0 ≤ q) (h : x ^ 2 ≤ p ^ 2 + q ^ 2) : |x| ≤ p + q := by
+theorem lk_abs_le_add_of_sq_le {x p q : ℝ} (hp : 0 ≤ p) (hq : 0 ≤ q) (h : x ^ 2 ≤ p ^ 2 + q ^ 2) : |x| ≤ p + q := by
   apply abs_le_of_sq_le_sq _ (by linarith)
   nlinarith [mul_nonneg hp hq]
 
@@ -168,10 +168,10 @@ theorem lk_chan_all (hg : LkGain α β) (hr : LkRun α β S T x ρ) (hi : LkInpu
     have := mul_le_mul_of_nonneg_right hl1 (sq_nonneg B); linarith
   have hlB0 : 0 ≤ lkLam α β ^ n * B ^ 2 := mul_nonneg (pow_nonneg hg.lam_nonneg n) (sq_nonneg B)
   have hE : |lkE α β D z w0 S n| ≤ 1.53 * B + 2.04 * (ε + lkOff α β) := by
-    apply abs_le_add_of_sq_le (by positivity) (by positivity)
+    apply lk_abs_le_add_of_sq_le (by positivity) (by positivity)
     nlinarith
   have hU : |lkU α β z w0 T n| ≤ 0.0125 * B + 0.02 * (ε + lkOff α β) := by
-    apply abs_le_add_of_sq_le (by positivity) (by positivity)
+    apply lk_abs_le_add_of_sq_le (by positivity) (by positivity)
     have a : 2.35 * α * (lkLam α β ^ n * B ^ 2) ≤ 2.35 * (1 / 16000) * B ^ 2 := by
       have : α * (lkLam α β ^ n * B ^ 2) ≤ (1 / 16000) * B ^ 2 :=
         mul_le_mul h2 hlB hlB0 (by norm_num)
@@ -207,7 +207,7 @@ theorem lk_chan_late (hg : LkGain α β) (hr : LkRun α β S T x ρ) (hi : LkInp
   have hBpos : 0 ≤ B := le_trans (norm_nonneg _) hB1
   have hl := hg.lam_pow_le n hn
   have hlB : lkLam α β ^ n * B ^ 2 ≤ 1 / 2 ^ 78 * B ^ 2 := mul_le_mul_of_nonneg_right hl (sq_nonneg B)
-  apply abs_le_add_of_sq_le (by positivity) (by positivity)
+  apply lk_abs_le_add_of_sq_le (by positivity) (by positivity)
   have : 2.34 * (1 / 2 ^ 78 * B ^ 2) ≤ (B / 2 ^ 38) ^ 2 := by
     rw [div_pow]
     have : (0:ℝ) ≤ B ^ 2 := sq_nonneg B
